@@ -24,6 +24,7 @@ REPO = os.environ.get("XMP_REPO", "/repo")
 LEAN = os.path.join(VERIF, "lean")
 HARNESS = os.path.join(VERIF, "harness")
 CACHE = os.environ.get("XMP_VERIF_CACHE", "/var/tmp/xmpverif")
+LOCKS = "/var/tmp/xmpverif-locks"        # package-wide locks (lake), independent of the cache dir
 OUT = os.path.join(VERIF, "out")            # replays, scratch case files (git-ignored)
 EVID = os.path.join(VERIF, "evidence")
 GUARD = "LIBXMP_VERIF"
@@ -204,7 +205,7 @@ def write_if_changed(path, text):
 
 def lean_build(targets, timeout=3000):
     """`lake build <targets>` under the package lock.  Returns (ok, output)."""
-    with Lock(os.path.join(CACHE, "lock-lake")):
+    with Lock(os.path.join(LOCKS, "lock-lake")):
         rc, out = sh(["lake", "build"] + list(targets), cwd=LEAN, timeout=timeout)
     return rc == 0, out
 
@@ -245,7 +246,7 @@ def _module_file(mod):
 def lean_audit(modules):
     """Audit the given modules and their in-package import closure.
     Returns dict(theorems=[{module,name,axioms}], bad=[...], files=[...])."""
-    with Lock(os.path.join(CACHE, "lock-lake")):
+    with Lock(os.path.join(LOCKS, "lock-lake")):
         rc, out = sh(["lake", "env", "lean", "--run", "Audit.lean"] + list(modules), cwd=LEAN, timeout=900)
     if rc != 0:
         raise InfraError("audit failed:\n" + out[-3000:])
@@ -284,7 +285,7 @@ def lean_audit(modules):
 
 
 def leanchecker(module):
-    with Lock(os.path.join(CACHE, "lock-lake")):
+    with Lock(os.path.join(LOCKS, "lock-lake")):
         rc, out = sh(["lake", "env", "leanchecker", module], cwd=LEAN, timeout=3000)
     return rc == 0, out
 
